@@ -1557,7 +1557,7 @@ def all_flagsets():
 
 
 def c14(tier):
-    rep = Report('C14', tier)
+    rep = Report('C14', tier, level='exploration')
     rng = random.Random(vlib.seed())
     binary = vlib.build_harness('release')
     cases = []
@@ -1602,7 +1602,7 @@ def c14(tier):
 
 
 def c15(tier):
-    rep = Report('C15', tier)
+    rep = Report('C15', tier, level='exploration')
     rng = random.Random(vlib.seed())
     binary = vlib.build_harness('release')
     keys = 'saAvVNSWEdDc'
@@ -2004,7 +2004,7 @@ CHECKS['C19'] = c19
 
 # ----------------------------------------------------------------------------------------- C17
 def c17(tier):
-    rep = Report('C17', tier)
+    rep = Report('C17', tier, level='exploration')
     binary = vlib.build_harness('release')
     tr = sweep_tool(binary, 'country', None, 'country')
     res = vlib.validate([tr], 'C17')
